@@ -247,17 +247,6 @@ func runP1(c *core.Ctx) {
 				}
 			}
 			c.Check(initReset, "utf8.CorrectWith/P1-init-reset", fd.Pos(), "pooled state machine's Sp cleared before the first native call", "the state machine comes from a pool shared with the JSON validators but its Sp is not cleared before the first ValidateUTF8 call: positions left by a failed validation are replayed as invalid-byte positions")
-			// the native's result decides the reset
-			resultUsed := false
-			ast.Inspect(loop.Body, func(n ast.Node) bool {
-				if as, ok := n.(*ast.AssignStmt); ok && len(as.Rhs) == 1 && ast.Unparen(as.Rhs[0]) == ast.Expr(call) {
-					if id, ok := as.Lhs[0].(*ast.Ident); ok && id.Name != "_" {
-						resultUsed = true
-					}
-				}
-				return true
-			})
-			c.Check(resultUsed, "utf8.CorrectWith/P1-result-bound", call.Pos(), "the native's result is bound (it says whether the position list was full)", "the result of native.ValidateUTF8 is discarded: the loop cannot tell a full position list from a finished scan")
 			var cur types.Object
 			for _, a := range call.Args {
 				if u, ok := ast.Unparen(a).(*ast.UnaryExpr); ok && u.Op == token.AND {
@@ -288,17 +277,36 @@ func runP1(c *core.Ctx) {
 			}
 			c.Check(synced, "utf8.CorrectWith/P1-resync", call.Pos(), "copy cursor set from the scan cursor inside the loop before each native call",
 				"the copy cursor is not re-synchronised with the scan cursor at the top of each round: when the native returns early because its position list (4096 entries) is full, the next round copies from a stale position and bytes are emitted twice")
-			// reset of the position list
+			// reset of the position list: unconditional at the end of a round, or conditional on the native's result
 			reset := false
 			ast.Inspect(loop.Body, func(n ast.Node) bool {
-				if ifs, ok := n.(*ast.IfStmt); ok {
-					for _, s := range ifs.Body.List {
-						if as, ok := s.(*ast.AssignStmt); ok && strings.HasSuffix(exprStr(as.Lhs[0]), ".Sp") {
-							if v, ok := p.ConstInt(as.Rhs[0]); ok && v == 0 {
-								reset = true
+				as, ok := n.(*ast.AssignStmt)
+				if !ok || len(as.Lhs) != 1 || !strings.HasSuffix(exprStr(as.Lhs[0]), ".Sp") || as.Pos() < call.Pos() {
+					return true
+				}
+				if v, ok := p.ConstInt(as.Rhs[0]); !ok || v != 0 {
+					return true
+				}
+				conds := enclosingIfs(fd, as.Pos())
+				inner := false
+				for _, ic := range conds {
+					if ic.stmt.Pos() > loop.Pos() {
+						inner = true
+						// the condition must be about the native's result
+						var res types.Object
+						ast.Inspect(loop.Body, func(m ast.Node) bool {
+							if a2, ok := m.(*ast.AssignStmt); ok && len(a2.Rhs) == 1 && ast.Unparen(a2.Rhs[0]) == ast.Expr(call) {
+								res = p.ExprObj(a2.Lhs[0])
 							}
+							return true
+						})
+						if res != nil && mentions(p, ic.stmt.Cond, res) {
+							reset = true
 						}
 					}
+				}
+				if !inner {
+					reset = true
 				}
 				return true
 			})
